@@ -50,7 +50,7 @@ import core
 
 LEVEL = "proof"
 EXTRA_TARGETS = ["model/SettingsTie.vo", "model/SettingsRenderTie.vo", "model/SettingsValTie.vo",
-                 "model/SettingsMroTie.vo", "model/SettingsDetectTie.vo"]
+                 "model/SettingsMroTie.vo", "model/SettingsDetectTie.vo", "model/SettingsRouteTie.vo"]
 KINDS = {
     "rm": lambda root: f"(SRm {2 if root == 'kitty' else 3})",
     "fs": lambda root: "SFs",
@@ -310,6 +310,114 @@ def gen_case(rng, size):
         # some subclasses get a metaclass DERIVED from their parent's (the model is unaffected)
         case["meta"] = sorted(rng.sample(range(1, nc), rng.randint(1, nc - 1)))
     return case
+
+
+# ---------------------------------------------------------------- the ROUTE of a render request
+
+ROUTES = ["fmt", "still", "anim", "iter"]  # format() / draw(animate=False) / draw(animate=True) / ImageIterator
+ANIMATED = ("g", "n", "q")
+
+
+def gen_others(rng, root):
+    """Other style arguments of the call (they must never matter for the method used)."""
+    others = {}
+    if root == "kitty" and rng.random() < 0.3:
+        others["z"] = rng.choice([-3, 0, 5, 2**31 - 1])
+    if rng.random() < 0.3:
+        others["mix"] = rng.randrange(2)
+    if rng.random() < 0.3:
+        others["c"] = rng.choice([0, 4, 9])
+    return others
+
+
+def gen_request(rng, root, kinds, ni):
+    t = rng.randrange(ni)
+    nm = 2 if root == "kitty" else 3
+    m = rng.choice([None, None] + list(range(nm)) + list(range(nm)))
+    route = rng.choice(["anim", "anim", "anim", "still", "iter", "fmt"])
+    if route == "iter" and kinds[t] not in ANIMATED:
+        route = "anim"  # (an ImageIterator needs an animated source; draw(animate=True) is then one frame)
+    return {"s": "rd", "op": "r", "t": t, "m": m, "route": route, "others": gen_others(rng, root),
+            "pres": rng.randrange(4)}
+
+
+def gen_route_case(rng, size):
+    """Histories of render-method settings at every level interleaved with render REQUESTS by
+    every route, for both styles, on animated and static sources."""
+    root = rng.choice(["kitty", "iterm2"])
+    nm = 2 if root == "kitty" else 3
+    nc = rng.randint(1, 4)
+    par = [0] + [rng.randrange(c) for c in range(1, nc)]
+    ni = rng.randint(1, 3)
+    icls = [rng.randrange(nc) for _ in range(ni)]
+    kinds = [rng.choice(["g", "g", "n", "n", "q", "q", "p", "s"]) for _ in range(ni)]
+    if not any(k in ANIMATED for k in kinds):
+        kinds[0] = rng.choice(ANIMATED)
+    ops = []
+    for _ in range(rng.randint(2, size)):
+        x = rng.random()
+        if x < 0.5:
+            ops.append(gen_request(rng, root, kinds, ni))
+        elif x < 0.55:
+            ops.append(gen_render(rng, root, kinds, ni))
+        elif x < 0.62 and root == "iterm2":
+            ops.append({"s": "nam", "op": rng.choice(["cs", "cs", "cu"]), "t": rng.randrange(nc),
+                        "v": rng.choice(nam_values()), "pres": 0})
+        else:
+            kind = rng.choices(["cs", "cu", "is", "iu"], [4, 2, 3, 1.5])[0]
+            o = {"s": "rm", "op": kind, "t": rng.randrange(nc) if kind in ("cs", "cu") else rng.randrange(ni),
+                 "pres": rng.randrange(6)}
+            if kind in ("cs", "is"):
+                o["v"] = rng.randrange(nm) if rng.random() < 0.9 else rng.choice(VALUES["rm"])
+            ops.append(o)
+    return {"root": root, "par": par, "icls": icls, "src": kinds, "ops": ops}
+
+
+def route_corpus():
+    """Both styles x every animated source kind: with the render method set at each level
+    (ancestor class, own class, instance, nowhere), EVERY override value (none and each method)
+    through EVERY route; plus other style arguments and a static source."""
+    out = []
+
+    def rq(t, route, m=None, others=None, pres=0):
+        return {"s": "rd", "op": "r", "t": t, "m": m, "route": route, "others": others or {}, "pres": pres}
+
+    def rm(op, t, v=None, pres=0):
+        o = {"s": "rm", "op": op, "t": t, "pres": pres}
+        if v is not None:
+            o["v"] = v
+        return o
+
+    for root, nm in (("kitty", 2), ("iterm2", 3)):
+        for kd in ANIMATED:
+            ops = []
+            top = nm - 1
+            for setup in ([], [rm("cs", 0, 1)], [rm("cs", 1, 0), rm("cs", 0, top)], [rm("is", 0, top, 1)],
+                          [rm("iu", 0), rm("cu", 1, pres=1)]):
+                ops += setup
+                for m in [None] + list(range(nm)):
+                    ops += [rq(0, "anim", m, pres=len(ops)), rq(0, "iter", m), rq(0, "still", m, pres=1), rq(0, "fmt", m)]
+            extra = {"c": 0, "mix": 1}
+            if root == "kitty":
+                extra["z"] = 5
+            ops += [rq(0, "anim", 0, extra), rq(0, "anim", 1, {"mix": 0}, 1), rq(1, "anim", 1), rq(1, "still", 0, extra),
+                    rq(0, "iter", 1, extra), rq(0, "anim", None, extra)]
+            out.append({"root": root, "par": [0, 0, 1], "icls": [2, 1], "src": [kd, "s"], "ops": ops})
+    return out
+
+
+def others_term(d):
+    names = {"z": "KZIndex", "mix": "KMix", "c": "KCompress"}
+    return core.coq_list(sorted(d.items()), lambda kv: f"({names[kv[0]]}, {core.z(kv[1])})")
+
+
+def qop_term(o, n):
+    """One operation of a history with requests, as a list of SettingsRoute.qop."""
+    if "route" not in o:
+        return f"map QOp ({rop_term(o, n)})"
+    m = "None" if o.get("m") is None else f"(Some {core.z(o['m'])})"
+    q = {"fmt": "QFormat", "still": "(QDraw false)", "anim": "(QDraw true)", "iter": "QIterate"}[o["route"]]
+    return f"[QReq {q} {o['t']} {m} {others_term(o.get('others', {}))}]"
 
 
 # ---------------------------------------------------------------- class hierarchies (multiple inheritance)
@@ -600,8 +708,22 @@ def evaluate(cases, tag="c20", only=None):
     terms, owner = [], []
     rterms, rowner = [], []
     mterms, mowner = [], []
+    qterms, qowner = [], []
     for i, (c, r) in enumerate(zip(cases, impl)):
-        if any(o["s"] == "rd" for o in c["ops"]) and (only is None or "render-method-used" in only):
+        if any("route" in o for o in c["ops"]):
+            if only is None or "render-method-used" in only:
+                rops = [o for o in c["ops"] if o["s"] in ("rm", "nam", "rd")]
+                nm = 2 if c["root"] == "kitty" else 3
+                qterms.append(
+                    f"{{| q_style := {'SKitty' if c['root'] == 'kitty' else 'SITerm2'}; q_newer := true; "
+                    f"q_par := {core.coq_list(c['par'])}; q_icls := {core.coq_list(c['icls'])}; "
+                    f"q_anim := {core.coq_list(r['srcs'], lambda x: 'true' if x[0] else 'false')}; "
+                    f"q_size := {core.coq_list(r['srcs'], lambda x: core.z(x[1]))}; "
+                    f"q_frames := {core.coq_list(r['srcs'], lambda x: str(x[2]))}; "
+                    f"q_ops := concat {core.coq_list(rops, lambda o: qop_term(o, nm))}; "
+                    f"q_obs := {zll([x[:2] for x in r['renders']])} |}}")
+                qowner.append(i)
+        elif any(o["s"] == "rd" for o in c["ops"]) and (only is None or "render-method-used" in only):
             rops = [o for o in c["ops"] if o["s"] in ("rm", "nam", "rd")]
             nm = 2 if c["root"] == "kitty" else 3
             rterms.append(
@@ -634,16 +756,18 @@ def evaluate(cases, tag="c20", only=None):
     errors = []
     rheader = header.replace("model.SettingsValTie.", "model.SettingsValTie model.SettingsRender model.SettingsRenderTie.")
     mheader = header.replace("model.SettingsValTie.", "model.SettingsValTie model.SettingsMro model.SettingsMroTie.")
+    qheader = header.replace("model.SettingsValTie.", "model.SettingsValTie model.SettingsRender model.SettingsRenderTie "
+                                                      "model.SettingsRoute model.SettingsRouteTie.")
     jobs = [(tag, header, terms, "vcase", "vbad cases"), (tag + "r", rheader, rterms, "rcase", "rbad cases"),
-            (tag + "m", mheader, mterms, "mcase", "mbad cases")]
+            (tag + "m", mheader, mterms, "mcase", "mbad cases"), (tag + "q", qheader, qterms, "qcase", "qbad cases")]
     from concurrent.futures import ThreadPoolExecutor
-    with ThreadPoolExecutor(max_workers=3) as ex:  # the three judgements side by side
+    with ThreadPoolExecutor(max_workers=4) as ex:  # the four judgements side by side
         judged = list(ex.map(lambda j: core.coq_shards(*j) if j[2] else ([], []), jobs))
-    for (bad, errs), own in zip(judged, (owner, None, mowner)):
+    for (bad, errs), own in zip(judged, (owner, rowner, mowner, qowner)):
         errors += errs
         for idx, code in bad:
-            if own is None:
-                status[rowner[idx]].append(("render-method-used", code))
+            if own is rowner or own is qowner:
+                status[own[idx]].append(("render-method-used", code))
             else:
                 i, s = own[idx]
                 status[i].append((s, code))
@@ -900,6 +1024,12 @@ def prune_hier(case):
 
 def describe(case):
     def one(o):
+        if o["s"] == "rd" and "route" in o:
+            how = {"fmt": "format", "still": "draw(animate=False)", "anim": "draw(animate=True)",
+                   "iter": "ImageIterator(all frames)"}[o["route"]]
+            args = ([] if o.get("m") is None else ["method=" + ["lines", "whole", "anim"][o["m"]]]) + [
+                f"{ {'z': 'z_index', 'mix': 'mix', 'c': 'compress'}[k]}={v}" for k, v in sorted(o.get("others", {}).items())]
+            return f"inst{o['t']}.{how}[{', '.join(args)}]"
         if o["s"] == "rd":
             how = "iterator-frame" if o.get("f") else "render"
             return f"inst{o['t']}.{how}" + ("" if o.get("m") is None else "+" + "LWA"[o["m"]])
@@ -940,6 +1070,9 @@ def run(ctx):
         cases += [gen_mi_case(rng, 10 if i % 3 else 24) for i in range(nmi)]
         # support detection inside the histories (drawn after the others, so that those stay the same cases)
         dcases = detect_corpus() + [gen_detect_case(rng, 8 if i % 3 else 16) for i in range(150 if ctx.quick else 3000)]
+        # render REQUESTS by every route (drawn last, so that all the others stay the same cases)
+        qcorpus = route_corpus()
+        cases += qcorpus + [gen_route_case(rng, 8 if i % 3 else 16) for i in range(40 if ctx.quick else 800)]
     src_info()
     lower_bad = list(_PROBE.get("lower_bad", []))
     from concurrent.futures import ThreadPoolExecutor
@@ -955,7 +1088,8 @@ def run(ctx):
     ncorpus = 0 if ctx.replay else len(corpus)
     hist = {"root": {}, "classes": {}, "ops_len": {}, "op_kinds": {}, "settings": {}, "rejected_ops": 0, "accepted_ops": 0,
             "inst_sources": {}, "renders": {}, "render_requests": {}, "set_values": {}, "outcomes": {},
-            "hierarchy_cases": 0, "hierarchy_shapes": {}, "hierarchy_targets": {}}
+            "hierarchy_cases": 0, "hierarchy_shapes": {}, "hierarchy_targets": {},
+            "route_requests": {}, "route_frames": {}}
     distinct = set()
 
     def bump(key, name):
@@ -999,6 +1133,17 @@ def run(ctx):
         for kd in c.get("src", []):
             hist["inst_sources"][kd] = hist["inst_sources"].get(kd, 0) + 1
         rds = [o for o in c["ops"] if o["s"] == "rd"]
+        if any("route" in o for o in rds):
+            # requests: one row per rendered frame
+            for o in rds:
+                if "route" in o:
+                    bump("route_requests", f"{c['root']},{o['route']},"
+                                           f"call={'-' if o.get('m') is None else 'LWA'[o['m']]}")
+                    bump("route_requests", f"src={c['src'][o['t']]},{o['route']}")
+                    bump("route_requests", "other style args: " + (",".join(sorted(o.get("others", {}))) or "none"))
+            for row in r.get("renders", []):
+                bump("route_frames", f"used={'LWA'[row[0]] if 0 <= row[0] <= 2 else row[0]},warned={row[1]}")
+            rds = []
         for o, row in zip(rds, r.get("renders", [])):
             key = f"used={'LWA'[row[0]] if 0 <= row[0] <= 2 else row[0]},warned={row[1]}"
             hist["renders"][key] = hist["renders"].get(key, 0) + 1
@@ -1041,6 +1186,7 @@ def run(ctx):
                                        **({"hier": small["hier"]} if "hier" in small else {"par": small["par"]}),
                                        "src": small.get("src"),
                                        "ops": [(o["s"], o["op"], o["t"], o.get("val"), o.get("m"), o.get("f"))
+                                               + ((o["route"], sorted(o.get("others", {}).items())) if "route" in o else ())
                                                for o in small["ops"]]}),
                 "what": what,
                 "replay": {"case": small, "observed": impl2[0], "status": st2[0]},
